@@ -28,7 +28,7 @@ PROP = dict(
                 "query and the number of results, the log grows by one (cut to its maximum) or an equal last entry is replaced, and nothing is recorded when "
                 "validation, the limit check or loading fails (`history_one`, `history_untouched`); no command of the regenerated cobra tree can panic while "
                 "its flag sets are merged (`starts`, by evaluation of the flag table). The rendering branches (list / table / json) are regenerated from the "
-                "source as step lists and interpreted by the model; `spec_recognised` shows every expression of those steps has a meaning. Tie to the code: ~25 "
+                "source as step lists and interpreted by the model; `spec_recognised` shows every expression of those steps has a meaning. Tie to the code: 23 "
                 "translator shape assertions pin the order validate < limit < load < engine < recovery(filter, truncate) < one AddEntry < nothing-found return "
                 "< stable re-sort < format switch, the colour helper and the NO_COLOR test; on every generated run the model's result block and history are "
                 "compared with the real binary's stdout bytes and history file, and independent monitors evaluate the property on the real outputs."),
@@ -37,7 +37,10 @@ PROP = dict(
                 "wall clock. Database text that contains ESC is printed raw by the list and table formats (hypothesis of `no_escapes`; generated, run and "
                 "counted as `esc-in-printed-field`). The table format cuts long commands / categories at a byte offset and may print invalid UTF-8 "
                 "(observed, counted as `table-cut-inside-rune`; not part of the property). Sub-commands other than search are exercised for termination and "
-                "absence of panics only (generated argument vectors, closed or piped stdin, timeout); their outputs are C08/C09/C16's subject."),
+                "absence of panics only (generated argument vectors, closed or piped stdin, timeout); their outputs are C08/C09/C16's subject. Text outside the "
+                "result block (preamble, loader / recovery warnings, suggestions, timing line) is not modelled: its wording is free, the monitors only require that it "
+                "carries no ESC when colour is off and the database has none. Well-formedness of the JSON text itself is encoding/json's; it is re-parsed on every run. "
+                "With --format json and an empty answer the command prints its prose suggestions and no array (observed, not covered by the property's wording)."),
     design_ref="DESIGN.md section 6, C17",
     rule=("sessions of 3-7 `wtf [search]` runs sharing an isolated HOME: generated --database files (valid lists with duplicates, platform tags, ESC / newline / "
           "quote / unicode / over-long fields; empty list; empty file; missing file; malformed or wrong-shaped YAML -> embedded fallback database; optional personal "
@@ -1010,5 +1013,5 @@ def replay(ctx, rep):
     print("argv:", argv, "\nexit status:", rc, "(timeout)" if to else "", "\nstdout:\n" + o.decode("utf-8", "backslashreplace"), "\nstderr:\n" + e.decode("utf-8", "backslashreplace"))
     hp = os.path.join(home, ".config", "wtf", "search_history.json")
     print("history after:", open(hp).read() if os.path.exists(hp) else None)
-    shutil.rmtree(d, ignore_errors=True)
+    shutil.rmtree(ctx.rundir, ignore_errors=True)
     return 1 if (rc not in (0, 1) or PANIC_RE.search(o) or PANIC_RE.search(e)) else 0
